@@ -513,8 +513,20 @@ func genC13(r *rand.Rand, n int, emit func(string)) {
 					p["uris"] = append(uris, pick(r, []string{"%zz", ":foo", "http://[::1", "a b\x7f", "http://a b.com/"}))
 					label = action + "/unparsable"
 				case 2:
-					p["uris"] = append(uris, uris[0])
-					label = action + "/duplicate"
+					switch r.Intn(3) {
+					case 0:
+						p["uris"] = append(uris, uris[0])
+						label = action + "/duplicate"
+					case 1:
+						// the same URI twice in a spelling net/url does not write back verbatim
+						u := pick(r, []string{"HTTPS://abc.com", "https://abc.com/some path", "https://abc.com/profile#", "did:example:123/path?a=b c#"})
+						p["uris"] = append(uris, u, u)
+						label = action + "/duplicate-non-canonical-spelling"
+					default:
+						// the written-back spelling first, another spelling of it second
+						p["uris"] = append(uris, "http://Example.com/a", "HTTP://Example.com/a")
+						label = action + "/duplicate-normal-form-first"
+					}
 				case 3:
 					p["uris"] = []interface{}{"HTTP://Example.com/a", "http://Example.com/a"}
 					label = action + "/duplicate-after-normalisation"
